@@ -49,6 +49,12 @@ class Verifier:
                 cparse.parse_file(path, pkg, self.contracts)
                 self.contract_files.append(path)
 
+    def asm_funcs(self):
+        if not hasattr(self, "_asm"):
+            from .asm import parse_asm
+            self._asm = parse_asm(os.path.join(self.repo, "field", "fe_amd64.s"))
+        return self._asm
+
     def display_name(self, f):
         pkg, key = S.func_key(f)
         short = "field." if pkg == FIELD else "edwards25519."
@@ -72,10 +78,14 @@ class Verifier:
             return full
         return None
 
-    def global_ptr(self, run, st, full):
+    def global_ptr(self, run, st, full, gtype=None):
         if full in run.global_objs:
             return Ptr(run.global_objs[full])
-        g = self.prog.globals[full]
+        g = self.prog.globals.get(full)
+        if g is None:
+            if gtype is None:
+                raise VerifError("unknown global %s" % full)
+            g = {"type": gtype}
         t = self.prog.elem(g["type"])
         short = full.split(".")[-1]
         o = run.new_obj(t, short, "global")
@@ -147,9 +157,13 @@ class Verifier:
         self.results[name] = rec
         if c.trusted:
             return rec
+        asm_body = None
         if not f["hasBody"]:
-            rec["error"] = "no Go body in this build configuration"
-            return rec
+            asm_body = self.asm_funcs().get(f["short"])
+            if asm_body is None:
+                rec["error"] = "no Go body and no assembly body in this build configuration"
+                return rec
+            rec["body"] = "field/fe_amd64.s"
         if c.mode not in ("lia", "bv"):
             rec["error"] = "mode %s not implemented" % c.mode
             return rec
@@ -157,6 +171,7 @@ class Verifier:
             if only_partition and pname != only_partition:
                 continue
             run = FuncRun(self, f, c, part, pname)
+            run.asm_body = asm_body
             try:
                 obs = run.run()
                 rec["obligations"].extend(obs)
